@@ -128,7 +128,7 @@ def directed_eds():
 
 
 def gen(rng, tier):
-    n = {"quick": 4000, "thorough": 400000, "search": 40000}[tier]
+    n = {"quick": 3000, "thorough": 400000, "search": 40000}[tier]
     ops = list(directed_eds())
     ops += [gen_eds(rng) for _ in range(n)]
     # raw bytes
